@@ -922,7 +922,9 @@ func (d *DotGit) ObjectsWithPrefix(prefix []byte) ([]plumbing.Hash, error) {
 	// Handle edge cases.
 	if len(prefix) < 1 {
 		return d.Objects()
-	} else if len(prefix) > plumbing.ZeroHash.Size() {
+	} else if len(prefix) > d.options.ObjectFormat.Size() {
+		// (the length of this repository's ids: 32 bytes with SHA-256, not
+		// the 20 of the zero hash)
 		return nil, nil
 	}
 
